@@ -46,7 +46,8 @@ ROWS = {
               "C08 quick: count_mismatch|ctor:frame_header", ""),
     "C08-2": ("C08", "bitrepr.rs FrameHeader::write clears the thread-local scratch buffer after the write instead of before",
               "a header write that fails (range error or failing sink) followed by another header/frame write on the same thread",
-              "C08 quick (refused values interleaved with valid ones, added after the first miss): count_mismatch; C10 quick: history_dependent; C12 quick: accepted_bits_not_prefix", ""),
+              "C08 quick (every fifth header first written into a refusing sink): count_mismatch; C10 quick: history_dependent|..|after|failing_header_write; C12 quick: accepted_bits_not_prefix",
+              "the full seed regression of the third session showed C08 and C10 no longer reporting it: their failed writes had come from values the constructors refuse since fix 59451e6; both now use a refusing sink"),
     "C09-1": ("C09", "coding.rs LPC candidate screened on residual bits only", "almost incompressible blocks", "C09 quick: frame_larger_than_verbatim", ""),
     "C09-2": ("C09", "coding.rs stereo decision starts from the whole-frame bit count", "stereo blocks where L, R, M are verbatim and S slightly larger", "C09 quick: frame_larger_than_verbatim", ""),
     "C10-1": ("C10", "same mechanism as C05-1 (authored independently)", "as C05-1", "C10 quick: history_dependent (adjacent block lengths 191/192, 255/256); C05 quick breadth part", ""),
@@ -150,6 +151,30 @@ ROWS = {
                "C07 quick: accepted_config_panic; C01 quick: encode_fail|panic@bitrepr.rs; C02 quick: encode_fail", ""),
     "C07c-2": ("C07", "coding.rs encode_subframe: 'too short for prediction' threshold MIN_BLOCK_SIZE (32) instead of MIN_BLOCK_SIZE_FOR_PREDICTION (64)", "a non-constant block of 32..=63 samples (block size 32..=63, or such a last block)",
                "C07 quick: accepted_config_panic@rice.rs; C01 quick: encode_fail|panic@rice.rs (and mt panic / hang classes)", "patch re-based onto HEAD after fix a79e2f0 touched the import block"),
+    "C02d-1": ("C02", "datatype.rs BlockSizeSpec::from_size: the 576 family generalised to every 576*2^n (9216 and 18432 get tags 6/7 without the extra bytes)", "a block (or last block) of exactly 9216 or 18432 samples",
+               "C02 quick (every final-frame length 1..=32767): malformed|frame.crc8 / eof", "found only because the block-length code space is enumerated completely; the universe's block sizes do not contain these values"),
+    "C02d-2": ("C02", "datatype.rs Stream::add_metadata_block no longer clears the last-block flag of the previous extra block", "two or more added metadata blocks",
+               "C02 quick (metadata variants): malformed|frame.sync", ""),
+    "C03d-1": ("C03", "source.rs Context::fill_interleaved hashes through a 1024-byte stack buffer (one extra zero byte per full chunk for 3-byte samples)", "integer delivery, single-thread, 20/24 bits, at least 342 values per fill",
+               "C03 quick: md5 / delivery_or_mode_dependence; C14 quick: context_md5", ""),
+    "C03d-2": ("C03", "par.rs hashing thread takes a block of at most one sample for the stop signal", "multi-thread, mono, length = k*block_size + 1",
+               "C03 quick: total_samples / md5 / delivery_or_mode_dependence", ""),
+    "C05d-1": ("C05", "par.rs ParContext::enqueue_buffer hashes the block on the feeding thread when the hashing queue is full (overtaking queued blocks)", "the hashing thread lagging a full queue behind the feeder",
+               "C05 quick layer 1 (loom, hashing queue shrunk to one slot): bytes_differ in cap1_cfg_w1_f3; breadth: mt_vs_st|packet_source, |empty_fills; C03 quick: md5 (16 workers)", "same idea as C03-2, authored independently although listed as used"),
+    "C05d-2": ("C05", "arrayutils.rs i32s_to_le_bytes: 16-bit fast path packs pairs and forgets an odd remainder", "multi-thread, 16 bits, an odd number of interleaved values in a block",
+               "C05 quick breadth: mt_vs_st|streaminfo; C03 quick: md5", ""),
+    "C06d-1": ("C06", "par.rs worker keeps the buffer of a frame that failed to encode", "2*workers blocks with an out-of-width sample",
+               "C06 quick: deadlock (loom scenario ..badsample@0+badsample@1)", ""),
+    "C06d-2": ("C06", "par.rs feeder drains the encode queue on a read error (queued bad block dropped: Source error instead of Config)", "a bad block still queued when a later read fails",
+               "C06 quick: result_kind_differs (scenario ..badsample@0+readerr@1; needs the interleaving, found by loom in every run)", ""),
+    "C15d-1": ("C15", "decode.rs Frame::copy_signal RightSide arm: left = right - side", "a frame coded right/side",
+               "C15 quick: frame_decode_differs / stream_decode_differs", "C01 does not see it (the library's own decoder is not C01's oracle)"),
+    "C15d-2": ("C15", "parser.rs block_size_code: range 0b0010..0b0101 excludes 4608", "a frame of 4608 samples",
+               "C15 quick: frame_parse_error / stream_parse_error", ""),
+    "C17d-1": ("C17", "coding.rs encode_with_fixed_block_size: Stream::new moved after the FrameBuf/Context tuple (Context::new asserts the width)", "single-thread, declared width of 33 bits or more",
+               "C17 quick: encode_with_fixed_block_size|bits_per_sample|panic@src/source.rs", ""),
+    "C17d-2": ("C17", "par.rs feed_fixed_block_size rewritten with `?` (read error returns before the stop tokens)", "multi-thread, any read error (over-full fill, wrong bytes-per-sample)",
+               "C17 quick: hang; C06 quick: deadlock (loom)", "re-introduces the defect fixed by 1e2b0e0"),
 }
 
 DROPPED = {
